@@ -127,6 +127,32 @@ fn full_alpide_chip_order_ib() {
     assert!(r.is_err() == (id != a.lane_number), "[C13][C01][C02] inner-barrel chip id must equal its lane (E9005)");
 }
 
+// @harness id=bnd_alpide_chip_order_ob props=C20,C13,C01,C02,C04 kind=bnd tier=manual bound=chips<=3,orders=2x3 fns=LaneAlpideFrameAnalyzer::check_chip_id_order stubs=alloc::fmt::format
+// Outer barrel with a configured list of valid chip orders: the lane is reported (E9005) exactly when the
+// sequence of chip ids seen in the lane equals none of the configured orders; without a configured list never.
+#[kani::proof]
+#[kani::stub(alloc::fmt::format, stub_format_nonempty)]
+#[kani::unwind(5)]
+fn bnd_alpide_chip_order_ob() {
+    let o: [u8; 6] = kani::any();
+    let orders: [Vec<u8>; 2] = [vec![o[0], o[1], o[2]], vec![o[3], o[4], o[5]]];
+    let configured: bool = kani::any();
+    let mut a = LaneAlpideFrameAnalyzer::new(Layer::Outer, None, if configured { Some(&orders[..]) } else { None });
+    let n: usize = kani::any();
+    kani::assume(n >= 1 && n <= 3);
+    let ids: [u8; 3] = kani::any();
+    let mut i = 0;
+    while i < n {
+        a.chip_data.push(AlpideFrameChipData::from_id_no_data(ids[i]));
+        i += 1;
+    }
+    let r = a.check_chip_id_order();
+    let eq = |k: usize| n == 3 && ids[0] == o[3 * k] && ids[1] == o[3 * k + 1] && ids[2] == o[3 * k + 2];
+    let viol = configured && !eq(0) && !eq(1);
+    assert!(r.is_err() == viol, "[C20][C13][C01][C02] OB chip order error iff a list of valid orders is configured and the lane's chip id sequence is none of them");
+    kani::cover!(r.is_ok() && configured);
+}
+
 fn stub_random_state_new() -> std::hash::RandomState {
     // fixed keys: RandomState is two u64 (hash quality is irrelevant for the verdicts)
     unsafe { core::mem::transmute::<[u64; 2], std::hash::RandomState>([1, 2]) }
